@@ -52,6 +52,52 @@ def run(tier, seed):
             tail = got.split("|")[1:]
             if "P" in "".join(tail).replace("PZ", "~") or "PZ" in "".join(tail) or "PC" in "".join(tail):
                 viol.append({"id": "partial-assignment-leaks", "witness": f"{kind}:leak", "source": src, "got": got})
+    # 2b. nesting: a partial/macro/block body that itself renders or calls -- the innermost
+    # template sees only ITS arguments and global data, whatever encloses it
+    inner = "[{{ x }}{{ a }}{{ secret }}{{ g }}]"
+    nest = {
+        "p": inner,
+        "outer": "{% assign x = 'OX' %}{% render 'p' %}",
+        "outer_arg": "{% render 'p', x: 'ARG' %}",
+        "base": "{% assign secret = 'BASE' %}{% block b %}{% render 'p' %}{% endblock %}",
+        "child": "{% extends 'base' %}{% block b %}{% assign x = 'CX' %}{% render 'p' %}{{ block.super }}{% endblock %}",
+        "child_macro": "{% extends 'base' %}{% block b %}{% macro m %}" + inner + "{% endmacro %}{% assign x = 'CX' %}{% call m %}{% endblock %}",
+    }
+    from liquid import Environment as _E
+    en = _E(extra=True, loader=DictLoader(nest))
+    nested = [
+        ("render-in-render", "{% render 'outer', a: 'OUTERARG', x: 'OUTERX' %}", "[G]"),
+        ("render-in-render-for", "{% assign xs = 'q,r' | split: ',' %}{% render 'outer' for xs as a %}", "[G][G]"),
+        ("render-arg-in-render", "{% render 'outer_arg', a: 'OUTERARG' %}", "[ARGG]"),
+        ("render-in-macro", "{% macro m a %}{% assign x = 'MX' %}{% render 'p' %}{% endmacro %}{% call m 'MACROARG' %}", "[G]"),
+        ("call-in-block", None, "[G]"),
+        ("render-in-block", None, "[G][G]"),
+        ("render-in-base-block", None, "[G]"),
+    ]
+    for label, src, want in nested:
+        cases += 1
+        try:
+            if label == "call-in-block":
+                got = en.get_template("child_macro").render(g="G")
+            elif label == "render-in-block":
+                got = en.get_template("child").render(g="G")
+            elif label == "render-in-base-block":
+                got = en.get_template("base").render(g="G")
+            else:
+                got = en.from_string(src).render(g="G")
+        except LiquidError as ex:
+            got = "!" + type(ex).__name__
+        if got != want:
+            viol.append({"id": "partial-sees-enclosing-scope", "witness": f"nested:{label}", "source": src or label, "got": got, "want": want})
+    # 2c. what it MUST see: its arguments and bound variable, with and without global data
+    e = mkenv({"p": "[{{ x }}|{{ k }}|{{ forloop.index }}]"})
+    for data in ({}, {"g": 1}):
+        for src, want in (("{% assign y = 5 %}{% render 'p' with y as x %}", "[5||]"), ("{% assign ys = '7,8' | split: ',' %}{% render 'p' for ys as x %}", "[7||1][8||2]"),
+                          ("{% render 'p', k: 'K' %}", "[|K|]"), ("{% assign y = 5 %}{% render 'p' with y as x, k: 'K' %}", "[5|K|]")):
+            cases += 1
+            got = e.from_string(src).render(**data)
+            if got != want:
+                viol.append({"id": "partial-misses-its-binding", "witness": f"binding:{'data' if data else 'nodata'}:{src.split('%}')[-2][-18:].strip()}", "source": src, "got": got, "want": want})
     # 3. include is disabled inside render
     e = mkenv({"p": "{% include 'q' %}", "q": "Q", "outer": "{% render 'p' %}"})
     for src in ("{% render 'p' %}", "{% include 'outer' %}"):
